@@ -1,0 +1,60 @@
+//go:build verif
+
+package sei
+
+// Property C17: SEI messages survive write/parse round trips.
+
+// ---------------------------------------------------------------- fixed-width typed messages (137, 144)
+// Serialiser and decoder are stated against the SAME field-layout predicate (ISO/IEC 23008-2 D.2.28 / D.2.35: all fields
+// are big-endian u(16) / u(32) in syntax order). The predicate determines every field from the bytes, so
+// Decode(Payload(m)) == m follows from "Payload(m) has layout m" and "Decode(d) = m' has layout m' of d".
+
+//@ pred mdcvPrim(d []byte, x0 uint16, y0 uint16, x1 uint16, y1 uint16, x2 uint16, y2 uint16) = len(d) == 24 && be16(d, 0) == x0 && be16(d, 2) == y0 && be16(d, 4) == x1 && be16(d, 6) == y1 && be16(d, 8) == x2 && be16(d, 10) == y2
+//@ pred mdcvRest(d []byte, wx uint16, wy uint16, maxL uint32, minL uint32) = len(d) == 24 && be16(d, 12) == wx && be16(d, 14) == wy && be32(d, 16) == maxL && be32(d, 20) == minL
+
+//@ func (MasteringDisplayColourVolumeSEI).Size
+//@   ensures[C17] result == 24
+//@   assigns nothing
+
+//@ func (MasteringDisplayColourVolumeSEI).Payload
+//@   ensures[C17] uint(len(result)) == m.Size()
+//@   ensures[C17] mdcvPrim(result, m.DisplayPrimariesX[0], m.DisplayPrimariesY[0], m.DisplayPrimariesX[1], m.DisplayPrimariesY[1], m.DisplayPrimariesX[2], m.DisplayPrimariesY[2])
+//@   ensures[C17] mdcvRest(result, m.WhitePointX, m.WhitePointY, m.MaxDisplayMasteringLuminance, m.MinDisplayMasteringLuminance)
+//@   loop 1 invariant i > 0 ==> be16(pl, 0) == m.DisplayPrimariesX[0] && be16(pl, 2) == m.DisplayPrimariesY[0]
+//@   loop 1 invariant i > 1 ==> be16(pl, 4) == m.DisplayPrimariesX[1] && be16(pl, 6) == m.DisplayPrimariesY[1]
+//@   loop 1 invariant i > 2 ==> be16(pl, 8) == m.DisplayPrimariesX[2] && be16(pl, 10) == m.DisplayPrimariesY[2]
+
+// The decoder fills the two primaries arrays of an address-taken local struct in a loop; a loop invariant cannot name the
+// current contents of that local (the name m is bound to the struct value at its allocation), so the clause
+//   result1 == nil ==> mdcvPrim(sd.payload, result0.(*MasteringDisplayColourVolumeSEI).DisplayPrimariesX[0], ...)
+// is NOT proved (engine limitation; `loop 1 unroll 3` is parsed but not implemented). The four fields after the loop are.
+//@ func DecodeMasteringDisplayColourVolumeSEI
+//@   ensures[C17] (result1 == nil) == (len(sd.payload) == 24)
+//@   ensures[C17] result1 == nil ==> typeis(result0, "*MasteringDisplayColourVolumeSEI")
+//@   ensures[C17] result1 == nil ==> mdcvRest(sd.payload, result0.(*MasteringDisplayColourVolumeSEI).WhitePointX, result0.(*MasteringDisplayColourVolumeSEI).WhitePointY, result0.(*MasteringDisplayColourVolumeSEI).MaxDisplayMasteringLuminance, result0.(*MasteringDisplayColourVolumeSEI).MinDisplayMasteringLuminance)
+
+//@ pred cllLayout(d []byte, a uint16, b uint16) = len(d) == 4 && be16(d, 0) == a && be16(d, 2) == b
+
+//@ func (ContentLightLevelInformationSEI).Size
+//@   ensures[C17] result == 4
+//@   assigns nothing
+
+//@ func (ContentLightLevelInformationSEI).Payload
+//@   ensures[C17] uint(len(result)) == c.Size()
+//@   ensures[C17] cllLayout(result, c.MaxContentLightLevel, c.MaxPicAverageLightLevel)
+
+//@ func DecodeContentLightLevelInformationSEI
+//@   ensures[C17] (result1 == nil) == (len(sd.payload) == 4)
+//@   ensures[C17] result1 == nil ==> typeis(result0, "*ContentLightLevelInformationSEI")
+//@   ensures[C17] result1 == nil ==> cllLayout(sd.payload, result0.(*ContentLightLevelInformationSEI).MaxContentLightLevel, result0.(*ContentLightLevelInformationSEI).MaxPicAverageLightLevel)
+
+// ---------------------------------------------------------------- raw message accessors
+//@ func (*SEIData).Payload
+//@   ensures result == s.payload
+//@   assigns nothing
+//@ func (*SEIData).Type
+//@   ensures result == s.payloadType
+//@   assigns nothing
+//@ func (*SEIData).Size
+//@   ensures result == uint(len(s.payload))
+//@   assigns nothing
